@@ -208,6 +208,19 @@ def index_in_bounds(fn, block, idx_op, coll_op):
             if okey(fn, a) == ikey and below_len(describe_len(fn, b)):
                 if (op == "Lt" and pol) or (op == "Ge" and not pol):
                     return True, "guard index < len"
+    # `let Some(x) = part.get(index) else { return .. }` earlier on the path: index < len(part); the indexed collection is that
+    # part or a copy of it (to_vec / clone of the same getter result)
+    ckeys = {ckey}
+    for o in mir.trace_op(fn, coll_op, transparent=mir.TRANSPARENT + ("]>::to_vec", "::to_vec", "ToOwned>::to_owned", "::as_mut_slice", "DerefMut>::deref_mut", "IndexMut", "::as_mut")):
+        ckeys.add(_okey_origin(o))
+    for desc, pol, dd in mir.guards_of(fn, block):
+        if desc[0] == "discr" and "Option<" in str(desc[2]) and isinstance(pol, tuple) and (("Some" in pol[1]) if pol[0] == "in" else ("None" in pol[1])):
+            for o in mir.trace_place(fn, desc[1], transparent=()):
+                if o.kind == "call":
+                    t2 = o.fn.blocks[o.data]["t"]
+                    if (mir.callee(t2) or "").endswith("::get") and len(t2[2]) > 1 and okey(fn, t2[2][1]) == ikey:
+                        rk = {okey(fn, t2[2][0])} | {_okey_origin(o2) for o2 in mir.trace_op(fn, t2[2][0], transparent=mir.TRANSPARENT)}
+                        if rk & ckeys: return True, "index already used in a successful checked get() on the same collection"
     return False, "no dominating bound for the index (%s)" % (d,)
 
 def ascii_provenance(F, fn, op, depth=0):
